@@ -11,7 +11,7 @@ usage: par_matrix.py [-j N] [--harmless DIR] [name-prefix ...]
 import json, os, re, subprocess, sys, shutil, threading, queue
 
 ROOT = "/verif"
-BASE = "/tmp/par-matrix"
+BASE = "/tmp/par-matrix-%d" % os.getpid()     # one scratch area per invocation
 
 def sh(cmd, cwd=None, env=None):
     p = subprocess.run(cmd, cwd=cwd, shell=isinstance(cmd, str), stdout=subprocess.PIPE, stderr=subprocess.STDOUT, text=True, env=env)
@@ -111,6 +111,7 @@ def main():
     for t in ts: t.start()
     for t in ts: t.join()
     sh("git -C /repo worktree prune")
+    shutil.rmtree(BASE, ignore_errors=True)
     if not harmless:
         for name, r in results.items():
             mp = os.path.join(ROOT, "seeded", name, "meta.json")
